@@ -20,11 +20,7 @@ pub struct FileType { pub raw: u32 }
 impl FileType { pub fn from_raw_mode(m: u32) -> (r: FileType) ensures r.raw == m { FileType { raw: m } } }
 pub type Dev = u64;
 pub type RawFd = i32;
-#[verifier::external_body] pub struct Stat { _p: () }
-#[verifier::external_body] pub struct StatFs { _p: () }
-#[verifier::external_body] pub struct Statx { _p: () }
-#[derive(Clone, Copy)]
-pub struct StatxFlags { pub bits: u32 }
+//@include prelude/stat.rs
 #[verifier::external_body] pub struct FrozenFd { _p: () }
 impl<'a> From<BorrowedFd<'a>> for FrozenFd { #[verifier::external_body] fn from(fd: BorrowedFd<'a>) -> FrozenFd { unimplemented!() } }
 impl From<&Path> for PathBuf { #[verifier::external_body] fn from(p: &Path) -> PathBuf { unimplemented!() } }
@@ -106,6 +102,3 @@ pub mod rustix_fs {
 pub uninterp spec fn requested_passthrough_mode() -> u32;
 pub uninterp spec fn requested_passthrough_flags() -> u32;
 pub uninterp spec fn requested_passthrough_fd(which: int) -> int;
-pub uninterp spec fn statfs_of(s: StatFs, fd: int) -> bool;
-pub uninterp spec fn stat_of(s: Stat, fd: int, path: Seq<u8>) -> bool;
-pub uninterp spec fn statx_of(s: Statx, fd: int, path: Seq<u8>, mask: u32) -> bool;
